@@ -105,10 +105,21 @@ func checkCmd(args []string) int {
 	}
 	t0 := time.Now()
 	var insts []eng.Instance
+	insts = spec.Quick()
 	if *tier == "thorough" && spec.Thorough != nil {
-		insts = spec.Thorough()
-	} else {
-		insts = spec.Quick()
+		// thorough = everything of the quick tier plus the deeper instances (same name: the thorough definition wins)
+		byName := map[string]int{}
+		for i, in := range insts {
+			byName[in.Name] = i
+		}
+		for _, in := range spec.Thorough() {
+			if i, ok := byName[in.Name]; ok {
+				insts[i] = in
+			} else {
+				byName[in.Name] = len(insts)
+				insts = append(insts, in)
+			}
+		}
 	}
 	if *only != "" {
 		var f []eng.Instance
